@@ -2802,6 +2802,26 @@ class PerspConvex(Convex):
                           right.multiplier, right.xtype)
 
 
+def widen_raffine(raffine, width):
+    """
+    The random-coefficient block of a bi-affine expression, padded with zero
+    coefficients for random variables declared after it was built.
+    """
+
+    size, old = raffine.shape
+    if old == width:
+        return raffine
+
+    linear = raffine.linear.tocoo()
+    rows = (linear.row // old) * width + linear.row % old
+    new_linear = csr_matrix((linear.data, (rows, linear.col)),
+                            shape=(size*width, linear.shape[1]))
+    new_const = np.zeros((size, width))
+    new_const[:, :old] = raffine.const
+
+    return Affine(raffine.model, new_linear, new_const)
+
+
 class RoAffine:
     """
     The Roaffine class creats an object of uncertain affine functions.
@@ -2871,7 +2891,9 @@ class RoAffine:
             else:
                 left = self
                 right = other
-            raffine = left.raffine + right.raffine
+            width = max(left.raffine.shape[1], right.raffine.shape[1])
+            raffine = (widen_raffine(left.raffine, width) +
+                       widen_raffine(right.raffine, width))
             affine = left.affine + right.affine
             if self.dec_model is not other.dec_model or \
                self.rand_model is not other.rand_model:
